@@ -25,6 +25,9 @@ import (
 type EpochSpec struct {
 	Depth int `json:"depth"`
 	Add   int `json:"add"`
+	// Restore: the source goes BACK to the chain it had in that earlier epoch (A -> B -> A); Depth and
+	// Add are ignored. (The generator continues from its own last chain in later epochs.)
+	Restore *int `json:"restore_epoch,omitempty"`
 }
 
 // Scenario is a complete, replayable description of one run (up to goroutine scheduling).
@@ -46,9 +49,11 @@ type Scenario struct {
 	// Shutdowns: request counts at which Run's context is cancelled (wherever the pipeline is); once
 	// Run has returned a new Blockchain + Synchronizer are started on the same database
 	Shutdowns []uint64 `json:"shutdowns,omitempty"`
-	Plugin    bool     `json:"recording_plugin,omitempty"`     // WithPlugin: a recording, sometimes failing plugin
-	Poll      bool     `json:"preconfirmed_polling,omitempty"` // pre-confirmed polling on (its requests fail)
-	ReadOnly  bool     `json:"read_only,omitempty"`            // readOnlyBlockchain: the chain must not change
+	// DBFailAt: these write calls of the node's database (counted from the start of the run) fail once
+	DBFailAt []int `json:"db_fail_at,omitempty"`
+	Plugin   bool  `json:"recording_plugin,omitempty"`     // WithPlugin: a recording, sometimes failing plugin
+	Poll     bool  `json:"preconfirmed_polling,omitempty"` // pre-confirmed polling on (its requests fail)
+	ReadOnly bool  `json:"read_only,omitempty"`            // readOnlyBlockchain: the chain must not change
 }
 
 type outcome struct {
@@ -62,6 +67,7 @@ type outcome struct {
 	panicMsg    string
 	drainLost   bool
 	afterReturn string
+	dbFailed    int
 	plugin      []pluginCall
 	restarts    int
 	extra       []*fsub
@@ -81,6 +87,10 @@ func buildChains(sc Scenario) ([][]*lib.Bundle, error) {
 	g := lib.NewChainGen(r, sc.SrcNew, opt)
 	var out [][]*lib.Bundle
 	for i, e := range sc.Epochs {
+		if e.Restore != nil && *e.Restore < len(out) {
+			out = append(out, append([]*lib.Bundle{}, out[*e.Restore]...))
+			continue
+		}
 		if i > 0 {
 			for d := 0; d < e.Depth && g.Height() > 0; d++ {
 				if err := g.Revert(); err != nil {
@@ -131,6 +141,24 @@ func (l *syncListener) OnSyncStepDone(op string, n uint64, took time.Duration) {
 
 func (l *syncListener) OnReorg(n uint64) {
 	l.rec.active("listener callback OnReorg")
+	// revertHead ran: if RevertHead failed (no commit removed block n) the code has extended
+	// currReorg all the same, and the next store will announce it
+	l.rec.mu.Lock()
+	reverted := false
+	for i := len(l.rec.log) - 1; i >= 0; i-- {
+		k := l.rec.log[i].Kind
+		if k == eOnReorg || k == eStored {
+			break
+		}
+		if k == eReverted {
+			reverted = l.rec.log[i].Num == n
+			break
+		}
+	}
+	if !reverted {
+		l.rec.pendingRevert++
+	}
+	l.rec.mu.Unlock()
 	l.rec.add(entry{Kind: eOnReorg, Num: n})
 	if l.churn != nil {
 		// between two reverts: every send so far is complete
@@ -186,7 +214,10 @@ func runScenario(sc Scenario) (out *outcome) {
 	out.chains = chains
 	rec := newRecorder()
 	mem := memory.New()
-	wdb := &recDB{KeyValueStore: mem, rec: rec}
+	wdb := &recDB{KeyValueStore: mem, rec: rec, failAt: map[int]bool{}}
+	for _, k := range sc.DBFailAt {
+		wdb.failAt[k] = true
+	}
 	net := lib.TestNetwork()
 	bc := lib.NodeOn(wdb, net, sc.DstNew)
 	out.final = bc
@@ -458,6 +489,7 @@ func runScenario(sc Scenario) (out *outcome) {
 	out.finalChain = append([]headRec{}, rec.chain...)
 	out.plugin = append([]pluginCall{}, rec.plugin...)
 	out.afterReturn = rec.afterReturn
+	out.dbFailed = wdb.failed
 	rec.mu.Unlock()
 	return out
 }
